@@ -3,6 +3,18 @@ package main
 func buildProperties() []Property {
 	return []Property{
 		{
+			ID: "C14", Title: "Separate interpreters are isolated and run concurrently without data races",
+			Decides:    "whole-program discipline for package-level state, recomputed from the source on every run: every run-time write to a package-level variable is under that variable's mutex or atomic; a variable written after init is read only under the lock or atomically; package-level maps are only read after init; no store can reach an object shared through a package-level variable (default write options, singleton promises, root environment). Hence the only state shared between two interpreters is guarded (no data race on library state for any schedule) and nothing one interpreter changes is reachable from another.",
+			NotDecided: "equality of answers with a sequential run; races inside host-provided readers/writers; the VM fields themselves (one goroutine per interpreter is assumed by the property).",
+			Rules: []RuleDef{
+				{"R-GLOBAL-WRITES", 10, only("R-GLOBAL-WRITES", ruleGlobalState)},
+				{"R-GLOBAL-READS", 3, only("R-GLOBAL-READS", ruleGlobalState)},
+				{"R-GLOBAL-TABLES", 4, only("R-GLOBAL-TABLES", ruleGlobalState)},
+				{"R-GLOBAL-ESCAPE", 10, ruleGlobalEscape},
+				{"R-ENV-IMMUT", 9, ruleEnvImmut},
+			},
+		},
+		{
 			ID: "C12", Title: "The Solutions iterator never blocks, counts answers exactly and stops on Close",
 			Decides:    "typestate of the iterator: no send on the request channel after Close, Close closes it at most once and reports the repeat, no blocking send once the answer channel was found closed (Next after exhaustion returns false instead of blocking), every blocking receive of the search goroutine is released by Close and the answer channel is closed by a deferred close.",
 			NotDecided: "exactly-once delivery of answers, interleaving of two iterations, promptness, goroutine counts - histories and schedules.",
